@@ -81,14 +81,14 @@ sx_enum! {
         Write { h: Sel, typed: bool, path: RPath, col: u8, p: u64 },
         Mint { h: Sel, typed: bool, lvl: Lvl },
         Scan { a: u8, path: SPath, w: Option<(u32, u8, u64)> },
-        Query { site: u8, mac: QMacro, key: Option<Sel>, plan: Vec<VisitAct> },
+        Query { site: u8, mac: QMacro, key: Option<Sel>, plan: Vec<VisitAct>, dp: Option<u32> },
         CloneWorld { panic_at: Option<u32>, probe: Option<(u32, Access)> },
         Switch { n: u8 },
         DropWorld { panic_at: Option<u32> },
         ClearEvents { a: Option<u8> },
         Fill { a: u8 },
         Forge { f: Forge },
-        Preset { a: u8, slot_back: u32, ver_back: u32 },
+        Preset { a: u8, slot_back: u32, ver_back: u32, bits: Option<u8> },
         Cycle { a: u8, n: u32 },
         Nest { accs: Vec<Access>, at: u32 },
         ReplaceArch { a: u8, cap: Option<u32> },
